@@ -6,6 +6,7 @@ use std::sync::{Arc, Barrier, Condvar, Mutex};
 use std::time::{Duration, Instant};
 
 struct Shared {
+    done: AtomicUsize, // jobs whose `run` has returned
     runs: Vec<AtomicUsize>,
     barrier: Option<Barrier>,
     gate: (Mutex<usize>, Condvar), // number of finished non-blocker jobs
@@ -21,6 +22,7 @@ struct Job {
 impl Task for Job {
     fn run(self) {
         self.sh.runs[self.id as usize].fetch_add(1, Ordering::SeqCst);
+        let _done = Done(Arc::clone(&self.sh));
         match self.kind {
             1 => {
                 self.sh.barrier.as_ref().unwrap().wait();
@@ -48,7 +50,16 @@ impl Task for Job {
     }
 }
 
-/// `POOL n=<size> jobs=<k> mode=<plain|sleep|barrier|blocker>`
+struct Done(Arc<Shared>);
+impl Drop for Done {
+    fn drop(&mut self) {
+        self.0.done.fetch_add(1, Ordering::SeqCst);
+    }
+}
+
+/// `POOL n=<size> jobs=<k> mode=<plain|sleep|barrier|blocker|unwind>`
+/// `unwind`: the pool's owner panics after submitting (sleeping) jobs, so the pool is shut down by an unwinding thread;
+/// `doneatreturn` = number of jobs that had finished when the shutdown returned.
 pub fn pool(arg: &str) -> String {
     let mut n = 1usize;
     let mut jobs = 0usize;
@@ -64,6 +75,7 @@ pub fn pool(arg: &str) -> String {
     // barrier: the first min(n, jobs) jobs rendezvous: completes iff that many jobs really run in parallel
     let par = n.min(jobs);
     let sh = Arc::new(Shared {
+        done: AtomicUsize::new(0),
         runs: (0..jobs).map(|_| AtomicUsize::new(0)).collect(),
         barrier: if mode == "barrier" && par > 0 { Some(Barrier::new(par)) } else { None },
         gate: (Mutex::new(0), Condvar::new()),
@@ -73,19 +85,30 @@ pub fn pool(arg: &str) -> String {
     let (tx, rx) = std::sync::mpsc::channel();
     let sh2 = Arc::clone(&sh);
     let mode2 = mode.clone();
+    let done_at_return = Arc::new(AtomicUsize::new(usize::MAX));
+    let dar = Arc::clone(&done_at_return);
     let th = std::thread::spawn(move || {
-        let pool: VerifPool<Job> = VerifPool::new(n);
-        for id in 0..jobs {
-            let kind = match mode2.as_str() {
-                "barrier" if id < par => 1,
-                // job 0 blocks until all other jobs are done: needs the others to proceed on the remaining workers
-                "blocker" if id == 0 && n >= 2 => 2,
-                "sleep" => 3,
-                _ => 0,
-            };
-            pool.execute(Job { id: id as u64, kind, need: jobs.saturating_sub(1), sh: Arc::clone(&sh2) });
-        }
-        drop(pool);
+        let sh3 = Arc::clone(&sh2);
+        let body = move || {
+            let pool: VerifPool<Job> = VerifPool::new(n);
+            for id in 0..jobs {
+                let kind = match mode2.as_str() {
+                    "barrier" if id < par => 1,
+                    // job 0 blocks until all other jobs are done: needs the others to proceed on the remaining workers
+                    "blocker" if id == 0 && n >= 2 => 2,
+                    "sleep" | "unwind" => 3,
+                    _ => 0,
+                };
+                pool.execute(Job { id: id as u64, kind, need: jobs.saturating_sub(1), sh: Arc::clone(&sh2) });
+            }
+            if mode2 == "unwind" {
+                panic!("the owner of the pool panics: the pool is dropped while unwinding");
+            }
+            drop(pool);
+        };
+        let _ = std::panic::catch_unwind(std::panic::AssertUnwindSafe(body));
+        // the shutdown (normal or by unwinding) has returned: how many jobs had finished by then?
+        dar.store(sh3.done.load(Ordering::SeqCst), Ordering::SeqCst);
         let _ = tx.send(());
     });
     let finished = rx.recv_timeout(Duration::from_secs(20)).is_ok();
@@ -95,11 +118,12 @@ pub fn pool(arg: &str) -> String {
     let ev = verif::take();
     let runs: Vec<String> = sh.runs.iter().map(|c| c.load(Ordering::SeqCst).to_string()).collect();
     format!(
-        "n={} jobs={} mode={} returned={} runs={} ms={} ev={}",
+        "n={} jobs={} mode={} returned={} doneatreturn={} runs={} ms={} ev={}",
         n,
         jobs,
         mode,
         finished as u8,
+        done_at_return.load(Ordering::SeqCst) as isize,
         if runs.is_empty() { "e".to_string() } else { runs.join(",") },
         t0.elapsed().as_millis(),
         if ev.is_empty() { "e".to_string() } else { ev.join(",") }
